@@ -138,6 +138,9 @@ func ParsePutCommand(cmd redcon.Command) (*Put, error) {
 			args = args[1:]
 			continue
 		case "PX":
+			if len(args) < 2 {
+				return nil, errors.New("syntax error")
+			}
 			px, err := strconv.ParseInt(util.BytesToString(args[1]), 10, 64)
 			if err != nil {
 				return nil, err
@@ -146,6 +149,9 @@ func ParsePutCommand(cmd redcon.Command) (*Put, error) {
 			args = args[2:]
 			continue
 		case "EX":
+			if len(args) < 2 {
+				return nil, errors.New("syntax error")
+			}
 			ex, err := strconv.ParseFloat(util.BytesToString(args[1]), 64)
 			if err != nil {
 				return nil, err
@@ -154,6 +160,9 @@ func ParsePutCommand(cmd redcon.Command) (*Put, error) {
 			args = args[2:]
 			continue
 		case "EXAT":
+			if len(args) < 2 {
+				return nil, errors.New("syntax error")
+			}
 			exat, err := strconv.ParseFloat(util.BytesToString(args[1]), 64)
 			if err != nil {
 				return nil, err
@@ -162,6 +171,9 @@ func ParsePutCommand(cmd redcon.Command) (*Put, error) {
 			args = args[2:]
 			continue
 		case "PXAT":
+			if len(args) < 2 {
+				return nil, errors.New("syntax error")
+			}
 			pxat, err := strconv.ParseInt(util.BytesToString(args[1]), 10, 64)
 			if err != nil {
 				return nil, err
